@@ -8,6 +8,7 @@ from core import proto
 from .common import case
 
 ID = "C02"
+COVER_FILES = ['instances/preflibinstance/ordinal.py', 'properties/basic.py']
 RULE = ("a case = a history of operations on a fresh OrdinalInstance plus a regrouped twin (same multiset of votes, "
         "other batching / entry points); every public field and view is compared with the extracted model after EACH "
         "operation, and the final observables of the two twins are compared with each other. exhaustive: all histories "
